@@ -83,8 +83,11 @@ def top_loop(fn, own_pc, nnn, enc, extra_inv):
         rem, inp, outp, line = "clen", "c", "m", r"while \(clen >= 4\)"
     inv = ("M.pc == %d && M.pos <= M.len && %s == M.len - M.pos && %s == M.in + M.pos && %s == M.out + M.pos && " % (own_pc, rem, inp, outp)
            + st_eq("state", nnn, ".") + " && " + GHOST_OUT + (" && " + extra_inv if extra_inv else ""))
+    # decrypt: only the plaintext region [out, out + len) may change - in place the 8 tag bytes behind it (same object)
+    # are outside the frame and therefore known to be preserved; encrypt: body and tag live in one output object
+    frame = "__CPROVER_object_whole(%s)" % outp if enc else "__CPROVER_object_upto(M.out, M.len)"
     return {"fn": fn, "idx": 0, "line": line,
-            "assigns": "m, c, %s, data, state, __CPROVER_object_whole(%s), %s" % (rem, outp, MON_ASSIGNS_TOP),
+            "assigns": "m, c, %s, data, state, %s, %s" % (rem, frame, MON_ASSIGNS_TOP),
             "inv": inv, "dec": rem,
             "map": {"m": fn + "::m", "c": fn + "::c", rem: fn + "::" + rem, "data": fn + "::1::data", "state": fn + "::1::state",
                     "M": "M", "tjv_t": "tjv_t"}}
@@ -101,7 +104,7 @@ for nnn in (128, 192, 256):
         props = props_for(mode, kind)
         extra = ""
         if prog == 2 or prog == 4:
-            extra = "M.in[M.len + tjv_t] == M.rtagv[tjv_t]"
+            extra = ""
         if prog == 3:
             extra = "M.out[M.len + tjv_t] == " + TAGBYTE
         for inplace in (False, True):
